@@ -107,6 +107,10 @@ def dict_ops():
         out.append((f, ()))
     out.append(('set', (g.mp((g.c('a'), g.c(7)), (g.c('q'), g.c(8))),)))
     out.append(('deleteAll', (g.lst(g.c('a'), g.c('zz')),)))
+    # the keys as a lazily produced collection (consumed once)
+    out.append(('deleteAll', (g.mcall(g.lst(g.c('b'), g.c('a'), g.c('n')), 'select', X),)))
+    out.append(('deleteAll', (g.mcall(g.lst(g.c('zz'), g.c('b'), g.c(1), g.c('a')), 'where', g.c(True)),)))
+    out.append(('deleteAll', (g.mcall(g.lst(g.c('a'), g.c('a'), g.c('b')), 'distinct'),)))
     for other in MERGE_OTHERS:
         o = g.c(other)
         out.append(('mergeWith', (o,)))
